@@ -39,6 +39,23 @@ def coq_files():
     return sorted(out)
 
 
+
+def tree_digest():
+    """cheap digest (path, size, mtime) of every Go source the harness binaries are built from"""
+    h = hashlib.sha256()
+    for root in (os.path.join(VERIF, "harness"), "/repo"):
+        for d, dirs, files in os.walk(root):
+            dirs[:] = [x for x in dirs if x not in (".git", "testdata")]
+            for f in sorted(files):
+                if f.endswith(".go") or f in ("go.mod", "go.sum"):
+                    p = os.path.join(d, f)
+                    try:
+                        st = os.stat(p)
+                    except OSError:
+                        continue
+                    h.update(("%s %d %d\n" % (p, st.st_size, int(st.st_mtime))).encode())
+    return h.hexdigest()
+
 def build(verbose=False):
     os.makedirs(BUILD, exist_ok=True)
     status = {"go": None, "gen": None, "coq": None, "extract": None, "failed_vo": [], "log": {}}
